@@ -1,0 +1,179 @@
+//go:build verif
+
+package serf
+
+import (
+	"sort"
+	"time"
+)
+
+// Accessors for the membership state machine of one node, used only by the
+// verification harness (/verif). Compiled only with -tags verif. Add-only.
+
+// VerifEncodeJoin encodes a messageJoin exactly as broadcastJoin does.
+func VerifEncodeJoin(ltime uint64, node string) []byte {
+	b, _ := encodeMessage(messageJoinType, &messageJoin{LTime: LamportTime(ltime), Node: node}, false)
+	return b
+}
+
+// VerifEncodeLeave encodes a messageLeave exactly as Leave/forceLeave do.
+func VerifEncodeLeave(ltime uint64, node string, prune bool) []byte {
+	b, _ := encodeMessage(messageLeaveType, &messageLeave{LTime: LamportTime(ltime), Node: node, Prune: prune}, false)
+	return b
+}
+
+// VerifEncodePushPull encodes the membership part of a messagePushPull.
+func VerifEncodePushPull(ltime uint64, status map[string]uint64, left []string) []byte {
+	pp := messagePushPull{
+		LTime:        LamportTime(ltime),
+		StatusLTimes: make(map[string]LamportTime, len(status)),
+		LeftMembers:  left,
+	}
+	for k, v := range status {
+		pp.StatusLTimes[k] = LamportTime(v)
+	}
+	b, _ := encodeMessage(messagePushPullType, &pp, false)
+	return b
+}
+
+// VerifDecodedMsg is a decoded join/leave intent.
+type VerifDecodedMsg struct {
+	Leave bool
+	LTime uint64
+	Node  string
+	Prune bool
+	Other bool // neither join nor leave
+}
+
+// VerifDecodeIntent decodes a queued broadcast.
+func VerifDecodeIntent(buf []byte) VerifDecodedMsg {
+	if len(buf) == 0 {
+		return VerifDecodedMsg{Other: true}
+	}
+	switch messageType(buf[0]) {
+	case messageJoinType:
+		var j messageJoin
+		if decodeMessage(buf[1:], &j) != nil {
+			return VerifDecodedMsg{Other: true}
+		}
+		return VerifDecodedMsg{LTime: uint64(j.LTime), Node: j.Node}
+	case messageLeaveType:
+		var l messageLeave
+		if decodeMessage(buf[1:], &l) != nil {
+			return VerifDecodedMsg{Other: true}
+		}
+		return VerifDecodedMsg{Leave: true, LTime: uint64(l.LTime), Node: l.Node, Prune: l.Prune}
+	}
+	return VerifDecodedMsg{Other: true}
+}
+
+// VerifDecodePushPull returns the membership part of an encoded LocalState.
+func VerifDecodePushPull(buf []byte) (ltime uint64, status map[string]uint64, left []string, ok bool) {
+	if len(buf) == 0 || messageType(buf[0]) != messagePushPullType {
+		return 0, nil, nil, false
+	}
+	var pp messagePushPull
+	if decodeMessage(buf[1:], &pp) != nil {
+		return 0, nil, nil, false
+	}
+	status = map[string]uint64{}
+	for k, v := range pp.StatusLTimes {
+		status[k] = uint64(v)
+	}
+	return uint64(pp.LTime), status, pp.LeftMembers, true
+}
+
+// VerifDrainIntentQueue returns every message currently queued on the intent
+// broadcast queue and empties the queue.
+func (s *Serf) VerifDrainIntentQueue() [][]byte {
+	msgs := s.broadcasts.GetBroadcasts(0, 1<<30)
+	s.broadcasts.Reset()
+	return msgs
+}
+
+// VerifStatusLTimes returns each member's statusLTime.
+func (s *Serf) VerifStatusLTimes() map[string]uint64 {
+	s.memberLock.RLock()
+	defer s.memberLock.RUnlock()
+	out := make(map[string]uint64, len(s.members))
+	for name, m := range s.members {
+		out[name] = uint64(m.statusLTime)
+	}
+	return out
+}
+
+// VerifFailedNames / VerifLeftNames return the names on the two lists, in list order.
+func (s *Serf) VerifFailedNames() []string {
+	s.memberLock.RLock()
+	defer s.memberLock.RUnlock()
+	var out []string
+	for _, m := range s.failedMembers {
+		out = append(out, m.Name)
+	}
+	return out
+}
+
+func (s *Serf) VerifLeftNames() []string {
+	s.memberLock.RLock()
+	defer s.memberLock.RUnlock()
+	var out []string
+	for _, m := range s.leftMembers {
+		out = append(out, m.Name)
+	}
+	return out
+}
+
+// VerifIntent is one buffered intent.
+type VerifIntent struct {
+	Node  string
+	Leave bool
+	LTime uint64
+}
+
+// VerifRecentIntents dumps recentIntents sorted by node name.
+func (s *Serf) VerifRecentIntents() []VerifIntent {
+	s.memberLock.RLock()
+	defer s.memberLock.RUnlock()
+	var out []VerifIntent
+	for name, in := range s.recentIntents {
+		out = append(out, VerifIntent{Node: name, Leave: in.Type == messageLeaveType, LTime: uint64(in.LTime)})
+	}
+	sort.Slice(out, func(i, j int) bool { return out[i].Node < out[j].Node })
+	return out
+}
+
+// VerifSetLeaveTime overwrites a member's leaveTime (the wall-clock stamp taken
+// by handleNodeLeave), so that reaping can be driven with explicit times.
+func (s *Serf) VerifSetLeaveTime(name string, t time.Time) bool {
+	s.memberLock.Lock()
+	defer s.memberLock.Unlock()
+	m, ok := s.members[name]
+	if !ok {
+		return false
+	}
+	m.leaveTime = t
+	return true
+}
+
+// VerifReap runs one tick of the reaper at an explicit time, exactly like the
+// body of handleReap.
+func (s *Serf) VerifReap(now time.Time) {
+	s.memberLock.Lock()
+	s.failedMembers = s.reap(s.failedMembers, now, s.config.ReconnectTimeout)
+	s.leftMembers = s.reap(s.leftMembers, now, s.config.TombstoneTimeout)
+	reapIntents(s.recentIntents, now, s.config.RecentIntentTimeout)
+	s.memberLock.Unlock()
+}
+
+// VerifBroadcastJoin does what Join does after a successful memberlist join.
+func (s *Serf) VerifBroadcastJoin() error {
+	return s.broadcastJoin(s.clock.Time())
+}
+
+// VerifForceLeave calls forceLeave (RemoveFailedNode / RemoveFailedNodePrune).
+func (s *Serf) VerifForceLeave(node string, prune bool) error {
+	return s.forceLeave(node, prune)
+}
+
+// VerifClock returns the member Lamport clock.
+func (s *Serf) VerifClock() uint64 { return uint64(s.clock.Time()) }
